@@ -19,11 +19,12 @@ RULE = (
     'equal the model. vars: the same for CSSVariablesDeclaration (API view vs. serialisation). domnames: every '
     'property name of every built-in profile, exhaustive. Non-trivial (decl): at some point >=2 entries share a '
     'normalised name with different priorities and an update/removal follows; (vars): a name is used in two '
-    'spellings; distinct by operation sequence.'
+    'spellings; distinct by operation sequence. escaped: deterministic scenarios with hex-escaped and backslash-escaped names and values '
+    '(double set + membership + removal, iteration, update versus fresh set, variables set / serialise) against the same map discipline.'
 )
 ASSUMPTIONS = [
     'value canonical forms come from a fixed hand-checked table (spelling -> canonical), not from the library',
-    'API name arguments vary by case and simple escapes only (hex escapes in arguments are not promised by the docstrings)',
+    'in the generated histories API name arguments vary by case and simple escapes only; hex escapes and escaped backslashes in names / values passed to the API are the listed findings F10-3..F10-7, probed deterministically by the escaped sub',
     'normalize=False variants of the API are not exercised',
 ]
 EXHAUSTIVE = False
@@ -419,3 +420,80 @@ SUBS = [
     Sub('vars', check_vars, strategy=vars_strategy, quick=3000, thorough=100000, shards_quick=4),
     Sub('domnames', check_domname, enumerate=domname_cases, shards_quick=2, shards_thorough=2),
 ]
+
+
+# --------------------------------------------------------------------------- names and values written with escapes (listed findings; excluded from the generators above)
+
+ESC_NAMES = [r'c\6f lor', r'\63 olor', r'\43 olor', r'colo\72', r'c\\olor', r'to\70']
+
+
+def escaped_cases(tier):
+    for n in ESC_NAMES:
+        yield {'kind': 'hex-name', 'name': n}
+    yield {'kind': 'iterate-escaped-backslash-name', 'name': r'c\\olor'}
+    for v in [r'red\9', r'1\\', r'a\1', r'\31 -']:
+        yield {'kind': 'update-vs-fresh', 'value': v}
+    for n in [r'a\:b', r'a\ b', r'a\;b', r'\-1', r'\#a']:
+        yield {'kind': 'var-set-escaped-name', 'name': n}
+        yield {'kind': 'var-serialise-escaped-name', 'name': n}
+
+
+def _decode_name(n):
+    from checks.c18_values import css_unescape
+
+    return css_unescape(n).lower()
+
+
+def check_escaped(case, ctx):
+    saved = cssutils.log.raiseExceptions
+    cssutils.log.raiseExceptions = False
+    try:
+        with lib('escaped', expect=(xml.dom.DOMException,)):
+            k = case['kind']
+            if k == 'hex-name':
+                n, plain = case['name'], _decode_name(case['name'])
+                s = CSSStyleDeclaration()
+                s.setProperty(n, 'red')
+                s.setProperty(n, 'blue')
+                entries = [(p.name, p.value) for p in s.getProperties(all=True)]
+                if s.keys() != [plain] if hasattr(s, 'keys') else False:
+                    raise Violation('escaped:hex-name-not-normalised', f'{n!r}: keys {s.keys()}')
+                if entries != [(plain, 'blue')] or n not in s or s[n] != 'blue' or s.removeProperty(n) != 'blue' or s.length:
+                    raise Violation('escaped:hex-name-not-normalised', f'setProperty({n!r}) twice: entries {entries}, {n!r} in s: {n in s}, s[{n!r}]={s[n]!r}')
+            elif k == 'iterate-escaped-backslash-name':
+                s = CSSStyleDeclaration()
+                s.setProperty(case['name'], 'red')
+                s.setProperty('color', 'blue')
+                vals = [getattr(p, 'value', None) for p in s]
+                if s.length != 2 or sorted(map(str, vals)) != ['blue', 'red']:
+                    raise Violation('escaped:iteration-loses-escaped-backslash-name', f'keys {s.keys()}, iteration yields {vals}')
+            elif k == 'update-vs-fresh':
+                v = case['value']
+                a = CSSStyleDeclaration()
+                a.setProperty('color', v)
+                b = CSSStyleDeclaration(cssText='color: red')
+                b.setProperty('color', v)
+                if a.getPropertyValue('color') != b.getPropertyValue('color'):
+                    raise Violation('escaped:update-stores-other-value-than-fresh-set', f'{v!r}: fresh {a.getPropertyValue("color")!r}, update {b.getPropertyValue("color")!r}')
+            elif k == 'var-set-escaped-name':
+                n, plain = case['name'], _decode_name(case['name'])
+                d = CSSVariablesDeclaration(cssText=n + ': 1')
+                if plain not in d:
+                    return
+                d[n] = '2'
+                if d[plain] != '2':
+                    raise Violation('escaped:variable-set-rejects-escaped-name', f'{n!r}: text replacement creates {list(d.keys())} but d[{n!r}] = "2" leaves {d[plain]!r}')
+            elif k == 'var-serialise-escaped-name':
+                n, plain = case['name'], _decode_name(case['name'])
+                d = CSSVariablesDeclaration(cssText=n + ': 1; q: 2')
+                api = {x: d[x] for x in d.keys()}
+                d2 = CSSVariablesDeclaration(cssText=d.cssText)
+                got = {x: d2[x] for x in d2.keys()}
+                if got != api:
+                    raise Violation('escaped:variables-serialisation-lists-other-variables', f'{n!r}: API {api}, cssText {d.cssText!r} declares {got}')
+    finally:
+        cssutils.log.raiseExceptions = saved
+    ctx.case([case], True, case)
+
+
+SUBS.append(Sub('escaped', check_escaped, enumerate=escaped_cases, shards_quick=1, shards_thorough=1))
